@@ -4,12 +4,12 @@ use crate::support::*;
 use educe::Educe;
 use core::cmp::Ordering;
 #[derive(Educe)]
-#[repr(isize)]
+#[repr(i64)]
 #[educe(PartialEq, PartialOrd, Eq)]
-pub enum T { Unit { #[educe(PartialOrd(rank(3), method = "m_pcmp"))] a: A<0>, #[educe(PartialOrd(rank(0)))] size: A<1> } = 70000, Some(#[educe(PartialOrd(ignore = true))] A<0>) }
+pub enum T { A {  } = -5, C(#[educe(PartialOrd(ignore = true))] A<0>, A<0>, A<0>) = 1, B {  } }
 
-pub fn values() -> Vec<T> { vec![T::Unit { a: A(0), size: A(0) }, T::Unit { a: A(0), size: A(1) }, T::Unit { a: A(0), size: A(7) }, T::Unit { a: A(1), size: A(0) }, T::Unit { a: A(1), size: A(1) }, T::Unit { a: A(1), size: A(7) }, T::Unit { a: A(7), size: A(0) }, T::Unit { a: A(7), size: A(1) }, T::Unit { a: A(7), size: A(7) }, T::Some(A(0)), T::Some(A(1)), T::Some(A(7))] }
-pub fn show(x: &T) -> String { #[allow(unused_variables)] match x { T::Unit { a: p0, size: p1 } => format!("Unit({},{})", sv(p0), sv(p1)), T::Some(p0) => format!("Some({})", sv(p0)) } }
-pub fn o_disc(x: &T) -> i128 { match x { T::Unit { a: _, size: _ } => 70000, T::Some(_) => 70001 } }
-pub fn o_pcmp(a: &T, b: &T) -> Option<Ordering> { match (a, b) { (T::Unit { a: a0, size: a1 }, T::Unit { a: b0, size: b1 }) => { match ::core::cmp::PartialOrd::partial_cmp(a1, b1) { Some(Ordering::Equal) => (), x => return x } match m_pcmp(a0, b0) { Some(Ordering::Equal) => (), x => return x } Some(Ordering::Equal) }, (T::Some(a0), T::Some(b0)) => {  Some(Ordering::Equal) }, _ => Some(o_disc(a).cmp(&o_disc(b))) } }
+pub fn values() -> Vec<T> { vec![T::A {  }, T::C(A(0), A(0), A(0)), T::C(A(7), A(7), A(7)), T::C(A(0), A(1), A(7)), T::C(A(0), A(7), A(0)), T::C(A(1), A(0), A(1)), T::C(A(0), A(0), A(7)), T::C(A(1), A(7), A(7)), T::C(A(0), A(1), A(0)), T::C(A(0), A(1), A(1)), T::C(A(0), A(7), A(1)), T::C(A(1), A(1), A(0)), T::C(A(1), A(0), A(7)), T::B {  }] }
+pub fn show(x: &T) -> String { #[allow(unused_variables)] match x { T::A {  } => format!("A()"), T::C(p0, p1, p2) => format!("C({},{},{})", sv(p0), sv(p1), sv(p2)), T::B {  } => format!("B()") } }
+pub fn o_disc(x: &T) -> i128 { match x { T::A {  } => -5, T::C(_, _, _) => 1, T::B {  } => 2 } }
+pub fn o_pcmp(a: &T, b: &T) -> Option<Ordering> { match (a, b) { (T::A {  }, T::A {  }) => {  Some(Ordering::Equal) }, (T::C(a0, a1, a2), T::C(b0, b1, b2)) => { match ::core::cmp::PartialOrd::partial_cmp(a1, b1) { Some(Ordering::Equal) => (), x => return x } match ::core::cmp::PartialOrd::partial_cmp(a2, b2) { Some(Ordering::Equal) => (), x => return x } Some(Ordering::Equal) }, (T::B {  }, T::B {  }) => {  Some(Ordering::Equal) }, _ => Some(o_disc(a).cmp(&o_disc(b))) } }
 pub fn run(out: &mut Out) { let vs = values(); for (i, a) in vs.iter().enumerate() { for (j, b) in vs.iter().enumerate() { let e = o_pcmp(a, b); let g = ::core::cmp::PartialOrd::partial_cmp(a, b); out.check(g == e, "ord_22", "partial_cmp", || format!("partial_cmp({}, {}) = {:?} expected {:?}", show(a), show(b), g, e)); } } }
